@@ -22,6 +22,8 @@ RULE = (
 )
 BOUNDS = "respondents 0..30, valid categories 1..4, items 1..3, insertions 0..2"
 ASSUMPTIONS = [
+    "sub-check decimal-weights uses non-dyadic weights (tenths); the exact rank is decided on "
+    "the integer tenths, zero-denominator cells are not judged there",
     "cells whose formula denominator is exactly 0 are only required to be non-finite",
     "integer / dyadic weights make rank and zero denominators exactly decidable",
 ]
@@ -152,6 +154,72 @@ def _same(a, b):
     return a.shape == b.shape and all(close(x, y) for x, y in zip(a.ravel(), b.ravel()))
 
 
+# ------------------------------------------------------------------ decimal weights
+@st.composite
+def proportional_case_st(draw):
+    """CAT x CAT table with NON-dyadic weights whose rows are exactly proportional (rank 1
+    in exact arithmetic, not in binary floating point), optionally with one perturbed cell
+    (rank 2).  One respondent per cell, weight = row multiplier x column profile."""
+    nr = draw(st.integers(2, 4))
+    nc = draw(st.integers(2, 4))
+    profile = [draw(st.integers(1, 20)) for _ in range(nc)]      # tenths
+    mult = [draw(st.sampled_from([1, 3, 7, 5, 11, 13])) for _ in range(nr)]
+    perturb = draw(st.booleans())
+    weights, ra, ca = [], [], []
+    exact = [[0] * nc for _ in range(nr)]
+    for i in range(nr):
+        for j in range(nc):
+            tenths = mult[i] * profile[j]
+            if perturb and i == 0 and j == 0:
+                tenths += 1
+            exact[i][j] = tenths
+            weights.append(tenths / 10.0 if draw(st.booleans()) else mult[i] * (profile[j] / 10.0)
+                           if not (perturb and i == 0 and j == 0) else tenths / 10.0)
+            ra.append(i + 1)
+            ca.append(j + 1)
+    def var(alias, k, answers):
+        return {"type": "cat", "flavour": "cat", "alias": alias, "name": alias.upper(),
+                "cats": [{"id": x + 1, "name": "%s%d" % (alias, x), "missing": False,
+                          "value": None} for x in range(k)],
+                "answers": answers, "use_order_key": False, "view_insertions": None}
+    sv = {"n": len(weights), "weights": weights,
+          "vars": {"r": var("r", nr, ra), "c": var("c", nc, ca)}}
+    q = {"dims": [{"var": "r"}, {"var": "c"}], "weighted": True}
+    return {"survey": sv, "query": q, "shape": ["cat", "cat"], "exact_tenths": exact,
+            "perturbed": perturb}
+
+
+def judge_proportional(case, rec):
+    sv, q = case["survey"], case["query"]
+    part = lib.cube(zz9enc.encode(sv, q)).partitions[0]
+    Z = np.asarray(part.zscores, dtype=float)
+    P = np.asarray(part.pvals, dtype=float)
+    exact = case["exact_tenths"]
+    rank = exact_rank(exact)
+    rec.nontrivial()
+    rec.event("exact rank %d" % rank)
+    rec.compared()
+    if rank < 2:
+        if not (np.all(np.isnan(Z)) and np.all(np.isnan(P))):
+            rec.violation(
+                "rows are exactly proportional (weights in tenths %r): the table lacks two "
+                "independent rows, yet z-scores %r / p-values %r are reported" % (
+                    exact, Z.tolist(), P.tolist()), "degenerate-decimal-not-nan")
+        return
+    tot = sum(sum(r) for r in exact)
+    rt = [sum(r) for r in exact]
+    ct = [sum(exact[i][j] for i in range(len(exact))) for j in range(len(exact[0]))]
+    for i in range(len(exact)):
+        for j in range(len(exact[0])):
+            z, kind = formula(exact[i][j] / 10.0, rt[i] / 10.0, ct[j] / 10.0, tot / 10.0)
+            rec.compared()
+            if kind == "ok" and not close(Z[i, j], z, rtol=1e-7, atol=1e-7):
+                rec.violation("decimal weights: zscores[%d,%d] = %r, formula gives %r" % (
+                    i, j, Z[i, j], z), "zscore-decimal")
+
+
 SUBCHECKS = [
     SubCheck("residuals", case_st(), judge, quick=8000, thorough=100000),
+    SubCheck("decimal-weights", proportional_case_st(), judge_proportional, quick=1600,
+             thorough=20000),
 ]
